@@ -879,6 +879,13 @@ func ruleSegmentsAreBuiltFromParsedPieces(c *Ctx, rule string) {
 			}
 			n++
 			good := okArg(call.Args[1], 0)
+			if !good {
+				// text without a '{' holds no parameter: whatever it was put together from, it is one literal piece
+				txt := call.Args[1]
+				if an.DominatedByEdge(in, noOpeningBraceEdge(c, func(v ssa.Value) bool { return v == txt || an.AP(v) == an.AP(txt) })) {
+					good = true
+				}
+			}
 			c.R.Add(rule, c.fk(f), "call:NewSegment/text="+c.O.Of(call.Args[1]).String(), c.pos(in), good, ifelse(good, "not assembled from parts", "a segment is built from "+c.O.Of(call.Args[1]).String()+", text assembled from parts instead of a piece the splitter cut out of a pattern or a part of one segment's text: literal text that ends up in front of a parameter is never compared with the request (the parameter's matcher starts at the `{`), so the node matches paths whose head differs"))
 		})
 	}
@@ -1105,10 +1112,38 @@ func ruleCallersSlicesAreNotRetained(c *Ctx, rule string, only string) {
 	var keeps func(f *ssa.Function, p *ssa.Parameter, depth int) string
 	keeps = func(f *ssa.Function, p *ssa.Parameter, depth int) string {
 		where := ""
+		// the same memory under another name: a sub-slice, slices.Clip / Grow of it (no copy), a conversion
+		var sameMemory func(v ssa.Value, d int) bool
+		sameMemory = func(v ssa.Value, d int) bool {
+			if v == ssa.Value(p) {
+				return true
+			}
+			if d > 3 {
+				return false
+			}
+			switch y := v.(type) {
+			case *ssa.Slice:
+				return sameMemory(y.X, d+1)
+			case *ssa.ChangeType:
+				return sameMemory(y.X, d+1)
+			case *ssa.Phi:
+				for _, e := range y.Edges {
+					if sameMemory(e, d+1) {
+						return true
+					}
+				}
+			case *ssa.Call:
+				n := an.CalleeName(&y.Call)
+				if (strings.HasPrefix(n, "slices.Clip") || strings.HasPrefix(n, "slices.Grow")) && len(y.Call.Args) > 0 {
+					return sameMemory(y.Call.Args[0], d+1)
+				}
+			}
+			return false
+		}
 		an.AllInstrs(f, func(in ssa.Instruction) {
 			switch x := in.(type) {
 			case *ssa.Store:
-				if _, isFA := x.Addr.(*ssa.FieldAddr); isFA && x.Val == ssa.Value(p) {
+				if _, isFA := x.Addr.(*ssa.FieldAddr); isFA && sameMemory(x.Val, 0) {
 					where = "stored in a field at " + c.pos(in)
 				}
 				// a captured parameter lives in a cell: the cell is what the function literal binds
@@ -1164,20 +1199,24 @@ func ruleCallersSlicesAreNotRetained(c *Ctx, rule string, only string) {
 		if !strings.HasPrefix(k, "mux.") || f.Parent() != nil || f.Object() == nil || !f.Object().Exported() {
 			continue
 		}
-		if only != "" && !strings.Contains(k, only) {
-			continue
+		if only != "" {
+			hit := false
+			for _, alt := range strings.Split(only, "|") {
+				if strings.Contains(k, alt) {
+					hit = true
+				}
+			}
+			if !hit {
+				continue
+			}
 		}
 		for _, p := range f.Params {
-			sl, ok := p.Type().Underlying().(*types.Slice)
-			if !ok {
+			if _, ok := p.Type().Underlying().(*types.Slice); !ok {
 				continue
 			}
-			if _, isSig := sl.Elem().Underlying().(*types.Signature); isSig {
-				continue // option / middleware functions: consumed, and immutable values anyway
-			}
-			if n, isNamed := types.Unalias(sl.Elem()).(*types.Named); isNamed && (n.Obj().Name() == "Option" || strings.HasPrefix(n.Obj().Name(), "Middleware")) {
-				continue
-			}
+			// lists of options and middlewares are judged like any other: their elements are immutable values, but a
+			// list that is kept (NewGroup's options, read again by every Group.New) changes when the caller reuses
+			// the slice it spread into the call
 			w := keeps(f, p, 0)
 			c.R.Add(rule, k, "param:"+p.Name()+"/not-retained", c.P.Pos(f.Pos()), w == "", ifelse(w == "", "the slice is copied or only read during the call", "the caller's slice "+p.Name()+" is "+w+": the object built here keeps using the caller's memory — editing or reusing the slice afterwards changes what the finished object accepts, and objects built from one slice are coupled"))
 		}
@@ -2056,4 +2095,421 @@ func fieldLoadAny(v ssa.Value) (base, field string, ok bool) {
 		return "", "", false
 	}
 	return an.AP(fa.X), an.FieldName(fa.X.Type(), fa.Field), true
+}
+
+// ruleStrippedNameIsNotEmpty — C10.R17 / C17.R14 / C05.R19: "{}" and "{:rule}" are refused as parameters without a
+// name. The name of a token is what follows the ignored leading '-', so "{-}", "{-:rule}" and "{-:}" have no name
+// either — but the emptiness test of the parser looks at the raw text, before the flag is stripped. Wherever the
+// syntax package strips the flag (a store of name[1:] into the Name field), the function that does it can fail (it
+// has an error result) and every success return behind the strip is behind a test of the stripped name for
+// emptiness. Otherwise the pattern is accepted, URL building substitutes params[""] and two such tokens in one
+// pattern are refused as duplicates of the name "".
+func ruleStrippedNameIsNotEmpty(c *Ctx, rule string) {
+	c.R.Rule(c.R.Property+"."+rule, 1, "a parameter name is tested for emptiness after the ignore flag is stripped from it")
+	n := 0
+	for _, f := range c.libFuncs() {
+		f := f
+		if !strings.HasPrefix(an.FuncKey(f), "syntax.") {
+			continue
+		}
+		an.AllInstrs(f, func(in ssa.Instruction) {
+			st, ok := in.(*ssa.Store)
+			if !ok {
+				return
+			}
+			fa, ok := st.Addr.(*ssa.FieldAddr)
+			if !ok || an.FieldName(fa.X.Type(), fa.Field) != "Name" {
+				return
+			}
+			sl, ok := st.Val.(*ssa.Slice)
+			if !ok || sl.Low == nil {
+				return
+			}
+			if k, isK := sl.Low.(*ssa.Const); !isK || k.Value == nil || k.Int64() != 1 {
+				return
+			}
+			if _, fld, isField := fieldLoadAny(sl.X); !isField || fld != "Name" {
+				return
+			}
+			n++
+			base := an.AP(fa.X)
+			emptyTest := func(b *ssa.BasicBlock, succ int) bool {
+				return edgeHas(b, succ, func(cond ssa.Value, truth bool) bool {
+					x, k, eq, ok := an.CondAtom(cond)
+					if !ok || k.Value == nil {
+						return false
+					}
+					switch k.Value.Kind() {
+					case constant.String:
+						// name != "" holds on this edge
+						return constant.StringVal(k.Value) == "" && an.AP(x) == base+".Name" && eq != truth
+					case constant.Int:
+						t := c.O.Of(x).String()
+						return k.Int64() == 0 && t == "call<builtin:len>("+base+".Name)" && eq != truth
+					}
+					return false
+				})
+			}
+			hasErr := an.ErrorResultIndex(f) >= 0
+			good := hasErr
+			var path []an.Point
+			if hasErr {
+				path = (&an.Query{
+					BlockEdge: emptyTest,
+					Target:    func(t ssa.Instruction) bool { r, isRet := t.(*ssa.Return); return isRet && an.IsSuccessReturn(r) },
+				}).Search(an.After(in))
+				good = path == nil
+			}
+			o := c.R.Add(rule, c.fk(f), "strip:"+base+".Name=Name[1:]/then-tested-for-emptiness", c.pos(in), good, ifelse(good, "every success return behind the strip is behind a test that the stripped name is not empty", ifelse(!hasErr, "the function that strips the ignore flag cannot fail: a name that consists of the flag alone ({-}, {-:rule}) becomes the empty name and is accepted, although {} and {:rule} are refused — URL building then substitutes params[\"\"]", "a success return is reachable behind the strip without a test of the stripped name: {-} is accepted with the empty name")))
+			if path != nil {
+				o.Path = c.P.PathString(path)
+			}
+			// and the callers look at the verdict
+			if good {
+				for _, call := range an.CallersOf(f) {
+					cv, isV := ssa.Value(call), true
+					used := false
+					if isV {
+						for _, r := range *cv.Referrers() {
+							switch r.(type) {
+							case *ssa.If, *ssa.BinOp, *ssa.Return, *ssa.Extract:
+								used = true
+							}
+						}
+					}
+					c.R.Add(rule, c.fk(call.Parent()), "call:"+an.FuncKey(f)+"/verdict-used", c.pos(call), used, ifelse(used, "the caller tests or hands on the error", "the caller drops the error of the stripping function: the empty name is accepted after all"))
+				}
+			}
+		})
+	}
+	if n == 0 {
+		c.R.Add(rule, "pkg:syntax", "strip:Name[1:]/exists", "-", true, "the syntax package does not strip a flag byte from a name by slicing (another form: not decided here)")
+	}
+}
+
+// ruleSplitKeepsThePosition — C03.R18 / C06.R12: a registration that shares a prefix with an existing node splits that
+// node: a new head takes its place and the node becomes the head's child. The place matters — siblings of one kind are
+// tried in list order, and the stable sort keeps whatever order it finds. A split that takes the node out of the
+// parent's list and appends the head at the end moves an *untouched* route behind its same-kind siblings, so a request
+// that two of them match changes hands after an unrelated Handle (and stays there after the Remove). In the function
+// that splits (it re-assigns the segment of an existing node), the parent's list is changed by storing the head into
+// an element of it, not by a removal plus an append.
+func ruleSplitKeepsThePosition(c *Ctx, rule string) {
+	a := c.A
+	c.R.Rule(c.R.Property+"."+rule, 1, "a split puts the new head node where the split node stood among its siblings")
+	inTree := func(f *ssa.Function) bool { return strings.HasPrefix(an.FuncKey(f), a.TreePkg.Name()+".") }
+	// the splitters: functions of the tree package that store a new segment into a node they received; a helper that
+	// does it for its caller (head.adopt(n, seg)) hands the role to the caller
+	storesSegment := map[*ssa.Function]bool{}
+	for _, f := range c.libFuncs() {
+		if !inTree(f) {
+			continue
+		}
+		an.AllInstrs(f, func(in ssa.Instruction) {
+			base, field, _, ok := fieldStore(in, a.NodeT)
+			if ok && field == a.FSegment && (strings.HasPrefix(base, "p:") || base == "recv") {
+				storesSegment[f] = true
+			}
+		})
+	}
+	var order []*ssa.Function
+	for f := range storesSegment {
+		order = append(order, f)
+	}
+	sort.Slice(order, func(i, j int) bool { return an.FuncKey(order[i]) < an.FuncKey(order[j]) })
+	n := 0
+	for _, f := range order {
+		f := f
+		n++
+		var removal, elemStore ssa.Instruction
+		scan := func(g *ssa.Function) {
+			an.AllInstrs(g, func(in ssa.Instruction) {
+				if st, isSt := in.(*ssa.Store); isSt {
+					if ia, isIA := st.Addr.(*ssa.IndexAddr); isIA {
+						if _, isCh := fieldLoadOf(ia.X, a.NodeT, a.FChildren); isCh {
+							elemStore = in
+						}
+					}
+				}
+				call := an.CallOf(in)
+				if call == nil {
+					return
+				}
+				name := an.CalleeName(call)
+				if strings.HasPrefix(name, "slices.Delete") && len(call.Args) > 0 {
+					if _, isCh := fieldLoadOf(call.Args[0], a.NodeT, a.FChildren); isCh {
+						removal = in
+					}
+				}
+				if h := an.StaticCallee(call); h != nil && an.IsLibrary(h) && len(call.Args) > 0 {
+					if _, isCh := fieldLoadOf(call.Args[0], a.NodeT, a.FChildren); isCh {
+						// a module helper that returns the list without an element (removeNodes)
+						shrinks := false
+						an.AllInstrs(an.Origin(h), func(x ssa.Instruction) {
+							if cc := an.CallOf(x); cc != nil && strings.HasPrefix(an.CalleeName(cc), "slices.Delete") {
+								shrinks = true
+							}
+						})
+						if shrinks {
+							removal = in
+						}
+					}
+				}
+			})
+		}
+		// the split is the function, the helpers it calls and the functions of the tree package that call it (a helper
+		// head.adopt(n, seg) stores the segment for splitNode)
+		scan(f)
+		an.AllInstrs(f, func(in ssa.Instruction) {
+			if call := an.CallOf(in); call != nil {
+				if h := an.StaticCallee(call); h != nil && inTree(an.Origin(h)) && an.Origin(h) != f {
+					scan(an.Origin(h))
+				}
+			}
+		})
+		if !isSplitEntry(c, f) {
+			for _, call := range an.CallersOf(f) {
+				if g := call.Parent(); g != nil && inTree(g) && g != f {
+					scan(g)
+				}
+			}
+		}
+		good := removal == nil && elemStore != nil
+		at := c.P.Pos(f.Pos())
+		if removal != nil {
+			at = c.pos(removal)
+		}
+		c.R.Add(rule, c.fk(f), "split/head-takes-the-place-of-the-node", at, good, ifelse(good, "the head is stored into the element of the parent's list that held the node", "the split takes the node out of its parent's list and the new head is appended at the end: the stable sort leaves it behind its same-kind siblings, so a request that matches two untouched routes changes hands after an unrelated registration — and stays there when that route is removed again"))
+	}
+	if n == 0 {
+		c.R.Add(rule, "pkg:tree", "split/function", "-", true, "no function re-assigns the segment of an existing node (nodes are not split in place: not decided here)")
+	}
+}
+
+// isSplitEntry: the function also changes a child list other than by appending to its receiver's (it places the head).
+func isSplitEntry(c *Ctx, f *ssa.Function) bool {
+	a := c.A
+	found := false
+	an.AllInstrs(f, func(in ssa.Instruction) {
+		if st, isSt := in.(*ssa.Store); isSt {
+			if ia, isIA := st.Addr.(*ssa.IndexAddr); isIA {
+				if _, isCh := fieldLoadOf(ia.X, a.NodeT, a.FChildren); isCh {
+					found = true
+				}
+			}
+		}
+		if call := an.CallOf(in); call != nil && len(call.Args) > 0 {
+			if _, isCh := fieldLoadOf(call.Args[0], a.NodeT, a.FChildren); isCh {
+				if h := an.StaticCallee(call); h != nil && an.IsLibrary(h) {
+					found = true
+				}
+			}
+		}
+	})
+	return found
+}
+
+// ruleRuleTextHasNoBraces — C01.R21 / C02.R19 / C04.R18: the parser ends a parameter at the first '}' — in NewSegment
+// and in the splitter alike — so the rule of "{year:\d{4}}" is `\d{4` and the rest, "}", is literal suffix. Go
+// compiles `\d{4` as "a digit followed by the text {4": the route never matches 2024, it matches "2{4}" and reports
+// year="2{4", and two such routes share nodes in ways the duplicate test does not see. Until braces are matched by
+// depth everywhere, a rule that contains '{' has been cut short and must be refused: in the segment constructor every
+// success return behind the store of the rule is behind a test that the rule holds no '{'.
+func ruleRuleTextHasNoBraces(c *Ctx, rule string) {
+	c.R.Rule(c.R.Property+"."+rule, 1, "a parameter rule that contains '{' (a quantifier cut at its first '}') is refused")
+	f := c.P.Func("syntax.(*Interceptors).NewSegment")
+	if f == nil {
+		c.R.Add(rule, "pkg:syntax", "segment-constructor/function", "-", true, "no Interceptors.NewSegment (segments are built elsewhere: not decided here)")
+		return
+	}
+	n := 0
+	an.AllInstrs(f, func(in ssa.Instruction) {
+		st, ok := in.(*ssa.Store)
+		if !ok {
+			return
+		}
+		fa, ok := st.Addr.(*ssa.FieldAddr)
+		if !ok || an.FieldName(fa.X.Type(), fa.Field) != "rule" {
+			return
+		}
+		if _, isK := st.Val.(*ssa.Const); isK {
+			return
+		}
+		n++
+		base := an.AP(fa.X)
+		isRule := func(v ssa.Value) bool {
+			return v == st.Val || an.AP(v) == base+".rule" || c.O.Of(v).String() == c.O.Of(st.Val).String()
+		}
+		isBrace := func(v ssa.Value) bool {
+			k, ok := v.(*ssa.Const)
+			if !ok || k.Value == nil {
+				return false
+			}
+			switch k.Value.Kind() {
+			case constant.Int:
+				return k.Int64() == '{'
+			case constant.String:
+				return strings.Contains(constant.StringVal(k.Value), "{")
+			}
+			return false
+		}
+		noBrace := func(b *ssa.BasicBlock, succ int) bool {
+			return edgeHas(b, succ, func(cond ssa.Value, truth bool) bool {
+				bare, neg := stripNot(cond)
+				holds := truth != neg
+				switch x := bare.(type) {
+				case *ssa.Call:
+					name := an.CalleeName(&x.Call)
+					if strings.HasPrefix(name, "strings.Contains") && len(x.Call.Args) == 2 && isRule(x.Call.Args[0]) && isBrace(x.Call.Args[1]) {
+						return !holds
+					}
+				case *ssa.BinOp:
+					for _, v := range []ssa.Value{x.X, x.Y} {
+						call, ok := v.(*ssa.Call)
+						if !ok || !strings.HasPrefix(an.CalleeName(&call.Call), "strings.Index") || len(call.Call.Args) != 2 || !isRule(call.Call.Args[0]) || !isBrace(call.Call.Args[1]) {
+							continue
+						}
+						atM, okM := cmpWithConst(x, v, -1)
+						at0, ok0 := cmpWithConst(x, v, 0)
+						if okM && ok0 && atM == holds && at0 != holds {
+							return true // the edge of "not found"
+						}
+					}
+				}
+				return false
+			})
+		}
+		path := (&an.Query{
+			BlockEdge: noBrace,
+			Target:    func(t ssa.Instruction) bool { r, isRet := t.(*ssa.Return); return isRet && an.IsSuccessReturn(r) },
+		}).Search(an.After(in))
+		o := c.R.Add(rule, c.fk(f), "rule-text/no-opening-brace", c.pos(in), path == nil, ifelse(path == nil, "every segment handed out has a rule without '{'", "a segment whose rule contains '{' is handed out: the parameter was ended at the first '}', so {year:\\d{4}} is the rule \\d{4 plus the literal suffix } — it never matches 2024, matches 2{4} instead and reports a value that does not satisfy the constraint the pattern states"))
+		if path != nil {
+			o.Path = c.P.PathString(path)
+		}
+	})
+	if n == 0 {
+		c.R.Add(rule, c.fk(f), "rule-text/stored", c.P.Pos(f.Pos()), true, "the constructor stores no rule text (another representation: not decided here)")
+	}
+}
+
+// ruleEndpointIsAnEmptySuffix — C01.R22 / C02.R20 / C03.R19: an end-point parameter ({path} at the very end of a
+// pattern) takes all the remaining text. Whether a parameter is one is a fact about what follows it: nothing. Deciding
+// it from the last byte of the segment text ("ends in '}'") also fires for "{id}/a}" — '}' is legal literal text — so
+// the route swallows every remainder (/text/QZ/other is served with id="QZ/other") or, for an interceptor, never
+// matches its own witness. Every store of the end-point flag in the segment constructor is the emptiness of the
+// suffix of that segment.
+func ruleEndpointIsAnEmptySuffix(c *Ctx, rule string) {
+	c.R.Rule(c.R.Property+"."+rule, 1, "a parameter is an end-point parameter exactly when its literal suffix is empty")
+	f := c.P.Func("syntax.(*Interceptors).NewSegment")
+	if f == nil {
+		c.R.Add(rule, "pkg:syntax", "segment-constructor/function", "-", true, "no Interceptors.NewSegment (segments are built elsewhere: not decided here)")
+		return
+	}
+	n := 0
+	for _, g := range builderCluster(c, f) {
+		if !strings.HasPrefix(an.FuncKey(g), "syntax.") {
+			continue
+		}
+		g := g
+		an.AllInstrs(g, func(in ssa.Instruction) {
+			st, ok := in.(*ssa.Store)
+			if !ok {
+				return
+			}
+			fa, ok := st.Addr.(*ssa.FieldAddr)
+			if !ok || an.FieldName(fa.X.Type(), fa.Field) != "Endpoint" {
+				return
+			}
+			if k, isK := st.Val.(*ssa.Const); isK && k.Value != nil && !constant.BoolVal(k.Value) {
+				return // explicitly not an end point
+			}
+			n++
+			base := an.AP(fa.X)
+			// the values stored into the Suffix field of the same object in this function
+			var suffixVals []string
+			an.AllInstrs(g, func(x ssa.Instruction) {
+				if s2, ok := x.(*ssa.Store); ok {
+					if f2, ok := s2.Addr.(*ssa.FieldAddr); ok && an.FieldName(f2.X.Type(), f2.Field) == "Suffix" && an.AP(f2.X) == base {
+						suffixVals = append(suffixVals, c.O.Of(s2.Val).String())
+					}
+				}
+			})
+			isSuffix := func(v ssa.Value) bool {
+				if an.AP(v) == base+".Suffix" {
+					return true
+				}
+				t := c.O.Of(v).String()
+				for _, sv := range suffixVals {
+					if t == sv {
+						return true
+					}
+				}
+				return false
+			}
+			good := false
+			if bo, isB := st.Val.(*ssa.BinOp); isB && bo.Op == token.EQL {
+				for _, pair := range [][2]ssa.Value{{bo.X, bo.Y}, {bo.Y, bo.X}} {
+					if s, isC := strConst(pair[1]); isC && s == "" && isSuffix(pair[0]) {
+						good = true
+					}
+					if k, isK := pair[1].(*ssa.Const); isK && k.Value != nil && k.Value.Kind() == constant.Int && k.Int64() == 0 {
+						if call, isCall := pair[0].(*ssa.Call); isCall {
+							if cc, isLen := builtinCall(call, "len"); isLen && isSuffix(cc.Args[0]) {
+								good = true
+							}
+						}
+					}
+				}
+			}
+			c.R.Add(rule, c.fk(g), "store:"+base+".Endpoint/is:Suffix==\"\"", c.pos(in), good, ifelse(good, "the flag is the emptiness of the segment's suffix", "the end-point flag is "+c.O.Of(st.Val).String()+", not the emptiness of the suffix: a literal tail that ends in '}' (legal text) makes {id}/a} an end-point parameter — it is served for every remainder with the tail inside the value, or never matches the requests built from its own pattern"))
+		})
+	}
+	if n == 0 {
+		c.R.Add(rule, c.fk(f), "store:Endpoint/exists", c.P.Pos(f.Pos()), true, "the constructor stores no end-point flag (another representation: not decided here)")
+	}
+}
+
+// noOpeningBraceEdge: the edge says that the text v holds no '{' (strings.IndexByte/Index(v, '{') is -1 / < 0,
+// !strings.Contains*(v, "{")).
+func noOpeningBraceEdge(c *Ctx, isText func(ssa.Value) bool) func(b *ssa.BasicBlock, succ int) bool {
+	isBrace := func(v ssa.Value) bool {
+		k, ok := v.(*ssa.Const)
+		if !ok || k.Value == nil {
+			return false
+		}
+		switch k.Value.Kind() {
+		case constant.Int:
+			return k.Int64() == '{'
+		case constant.String:
+			return strings.Contains(constant.StringVal(k.Value), "{")
+		}
+		return false
+	}
+	return func(b *ssa.BasicBlock, succ int) bool {
+		return edgeHas(b, succ, func(cond ssa.Value, truth bool) bool {
+			bare, neg := stripNot(cond)
+			holds := truth != neg
+			switch x := bare.(type) {
+			case *ssa.Call:
+				name := an.CalleeName(&x.Call)
+				if strings.HasPrefix(name, "strings.Contains") && len(x.Call.Args) == 2 && isText(x.Call.Args[0]) && isBrace(x.Call.Args[1]) {
+					return !holds
+				}
+			case *ssa.BinOp:
+				for _, v := range []ssa.Value{x.X, x.Y} {
+					call, ok := v.(*ssa.Call)
+					if !ok || !strings.HasPrefix(an.CalleeName(&call.Call), "strings.Index") || len(call.Call.Args) != 2 || !isText(call.Call.Args[0]) || !isBrace(call.Call.Args[1]) {
+						continue
+					}
+					atM, okM := cmpWithConst(x, v, -1)
+					at0, ok0 := cmpWithConst(x, v, 0)
+					if okM && ok0 && atM == holds && at0 != holds {
+						return true
+					}
+				}
+			}
+			return false
+		})
+	}
 }
